@@ -181,6 +181,7 @@ class Translator:
         self.const_cache = {}
         self.buf_const = {}   # bufkey -> the parameter is a pointer to const
         self.locals = set()   # ids of the variables declared inside the function being translated
+        self.buf_arr = {}     # bufkey -> True for a local byte array (elements may hold no value)
         self.rty = "unit"
         self.probe_typedefs()
 
@@ -404,9 +405,12 @@ class Translator:
             return self.cell_read(env, v[1])
         p = self.lvalue_ptr(n, env)
         if p[0] == "bytes":
+            ld = "(%s %s %s)" % ("c_aload" if self.buf_arr.get(p[1]) else "c_load", env.bufs[p[1]], p[2] or "(COk 0)")
+            if self.ity(n) == "TS8":          # the byte read through an lvalue of type signed char / int8_t
+                return "(c_cast TU8 TS8 %s)" % ld
             if self.ity(n) != "TU8":
                 raise Untranslatable("load of a non-byte through a byte pointer")
-            return "(c_load %s %s)" % (env.bufs[p[1]], p[2] or "(COk 0)")
+            return ld
         if env.cells[p[1]][0] != self.ity(n):
             raise Untranslatable("object read through a pointer of another type")
         return self.cell_read(env, p[1])
@@ -457,6 +461,13 @@ class Translator:
                 return v
             if ck == "NoOp" and self.is_ptr(sub) and self.ty(sub["type"])[2] == t[2]:
                 return self.ptr(sub, env)
+            if ck in ("NoOp", "BitCast") and self.is_ptr(sub) and \
+                    {t[2], self.ty(sub["type"])[2]} <= {("int", "TU8"), ("int", "TS8")}:
+                return self.ptr(sub, env)            # uint8_t * <-> int8_t * / char *: the same bytes
+            if ck == "ArrayToPointerDecay" and sub["kind"] == "DeclRefExpr":
+                v = self.var(sub, env)
+                if v[0] == "bytes" and self.buf_arr.get(v[1]):
+                    return v
             raise Untranslatable("pointer cast %s" % ck)
         if k == "BinaryOperator" and n["opcode"] in ("+", "-"):
             a, b = n["inner"]
@@ -485,6 +496,23 @@ class Translator:
                 (k == "UnaryOperator" and n["opcode"] in ("++", "--")):
             return True
         return any(self.effectful(c) for c in n.get("inner", []) if isinstance(c, dict))
+
+    def st(self, bufkey):
+        return "c_astore" if self.buf_arr.get(bufkey) else "c_store"
+
+    def modified(self, n):
+        """ids of the variables that n assigns, increments or decrements directly"""
+        out = []
+        k = n.get("kind")
+        if k == "CompoundAssignOperator" or (k == "BinaryOperator" and n["opcode"] == "=") or \
+                (k == "UnaryOperator" and n["opcode"] in ("++", "--")):
+            t = self.unparen(n["inner"][0])
+            if t["kind"] == "DeclRefExpr":
+                out.append(t["referencedDecl"]["id"])
+        for c in n.get("inner", []):
+            if isinstance(c, dict):
+                out += self.modified(c)
+        return out
 
     def refers(self, n, declid):
         r = n.get("referencedDecl")
@@ -639,7 +667,7 @@ class Translator:
             m = self.fresh("m_", "")
             e = env.copy()
             e.bufs[p[1]] = m
-            return self.bind(nm, term, self.bind(m, "(c_store %s %s (COk %s))" % (env.bufs[p[1]], p[2] or "(COk 0)", nm), k(e, nm)))
+            return self.bind(nm, term, self.bind(m, "(%s %s %s (COk %s))" % (self.st(p[1]), env.bufs[p[1]], p[2] or "(COk 0)", nm), k(e, nm)))
         if env.cells[p[1]][0] != self.ity(lhs):
             raise Untranslatable("object assigned through a pointer of another type")
         return self.bind(nm, term, k(self.set_cell(env, p[1], nm), nm))
@@ -669,7 +697,7 @@ class Translator:
                     nm, m = self.fresh("v_", "a"), self.fresh("m_", "")
                     e3 = e2.copy()
                     e3.bufs[pv[1]] = m
-                    return nm, m, e3, "(c_store %s %s (COk %s))" % (e2.bufs[pv[1]], at, nm)
+                    return nm, m, e3, "(%s %s %s (COk %s))" % (self.st(pv[1]), e2.bufs[pv[1]], at, nm)
                 if q.get("isPostfix"):
                     nm, m, e3, st = put(env, self.cell_read(env, pv[2]))
                     return self.bind(nm, self.expr(rhs, env), self.bind(m, st, self.move(pv, e3, step, lambda e4: k(e4, nm))))
@@ -678,6 +706,23 @@ class Translator:
                     nm, m, e3, st = put(e2, self.cell_read(e2, pv[2]))
                     return self.bind(nm, self.expr(rhs, e2), self.bind(m, st, k(e3, nm)))
                 return self.move(pv, env, step, moved)
+        # a[i++] = e  (the index has effects; e has none and does not mention what the index modifies)
+        if lhs["kind"] == "ArraySubscriptExpr" and self.effectful(lhs):
+            a, b = lhs["inner"]
+            if not self.is_ptr(a):
+                a, b = b, a
+            if self.effectful(a) or self.effectful(rhs) or any(self.refers(rhs, i) for i in self.modified(b)):
+                raise Untranslatable("store with effects on both sides")
+
+            def at(e2, r):
+                p = self.padd(self.ptr(a, e2), "c_padd", "(COk %s)" % r)
+                if p[0] != "bytes" or self.ity(lhs) != "TU8" or self.buf_const.get(p[1]):
+                    raise Untranslatable("store through a pointer to const / of a non-byte")
+                m = self.fresh("m_", "")
+                e3 = e2.copy()
+                e3.bufs[p[1]] = m
+                return self.bind(m, "(%s %s %s %s)" % (self.st(p[1]), e2.bufs[p[1]], p[2], self.expr(rhs, e2)), k(e3, None))
+            return self.rhs(b, env, at, ctx, "i")
         p = self.lvalue_ptr(lhs, env)
         if p[0] == "bytes":
             if self.ity(lhs) != "TU8" or self.effectful(rhs) or self.buf_const.get(p[1]):
@@ -685,7 +730,7 @@ class Translator:
             m = self.fresh("m_", "")
             e = env.copy()
             e.bufs[p[1]] = m
-            return self.bind(m, "(c_store %s %s %s)" % (env.bufs[p[1]], p[2] or "(COk 0)", self.expr(rhs, env)), k(e, None))
+            return self.bind(m, "(%s %s %s %s)" % (self.st(p[1]), env.bufs[p[1]], p[2] or "(COk 0)", self.expr(rhs, env)), k(e, None))
         if env.cells[p[1]][0] != self.ity(lhs):
             raise Untranslatable("object assigned through a pointer of another type")
         hint = lhs["referencedDecl"]["name"] if lhs["kind"] == "DeclRefExpr" else "a"
@@ -753,8 +798,17 @@ class Translator:
         d = ds[0]
         if d["kind"] != "VarDecl" or d.get("storageClass") or d.get("tls"):
             raise Untranslatable("declaration %s %s" % (d["kind"], d.get("storageClass", "")))
-        t = self.ty(d["type"])
         e = env.copy()
+        arr = re.match(r"^(.*?)\s*\[(\d+)\]$", d["type"].get("desugaredQualType") or d["type"]["qualType"])
+        if arr:                                            # uint8_t a[n]: a byte object whose elements hold no value yet
+            if self.ty(arr.group(1)) != ("int", "TU8") or re.match(r"^const\b", arr.group(1)) or "init" in d:
+                raise Untranslatable("local array %s (only uninitialised uint8_t arrays)" % d["name"])
+            nm = self.fresh("m_", d["name"])
+            e.vars[d["id"]] = ("bytes", d["id"], None)
+            e.bufs[d["id"]] = nm
+            self.buf_arr[d["id"]] = True
+            return self.bind(nm, "(COk (c_anew %s))" % arr.group(2), self.decls(ds[1:], e, k, ctx))
+        t = self.ty(d["type"])
         if t[0] == "ptr" and t[2] == ("int", "TU8"):       # byte pointer local = an offset into the object of a parameter
             if d.get("init") != "c":
                 raise Untranslatable("pointer %s declared without initialiser" % d["name"])
@@ -1029,8 +1083,8 @@ class Translator:
 
     def check_ptr(self, v, t, env):
         if v[0] == "bytes":
-            if t[2] != ("int", "TU8"):
-                raise Untranslatable("byte pointer passed as a pointer to another type")
+            if t[2] != ("int", "TU8") or self.buf_arr.get(v[1]):
+                raise Untranslatable("byte pointer passed as a pointer to another type / local array passed to a function")
             if self.buf_const.get(v[1]) and not t[1]:
                 raise Untranslatable("pointer to const passed as a pointer to non-const")
         elif t[2] != ("int", env.cells[v[1]][0]):
@@ -1044,7 +1098,7 @@ class Translator:
         sig = info["sig"]
         if len(sig["params"]) != len(args):
             raise Untranslatable("arity of %s" % name)
-        binds, actual, outs, seen, e = [], [], [], set(), env.copy()
+        binds, actual, outs, seen, splices, e = [], [], [], set(), [], env.copy()
         if sig["fuel"]:
             self.fuel = True
             actual.append("v_fuel")
@@ -1061,9 +1115,16 @@ class Translator:
             if v[1] in seen:
                 raise Untranslatable("two pointer arguments to the same object")
             seen.add(v[1])
-            if v[0] == "bytes":
-                if v[2] is not None:
-                    raise Untranslatable("offset byte pointer passed to non-static %s" % name)
+            if v[0] == "bytes" and v[2] is not None:      # p + k: the callee sees the object from index k on
+                off, view = self.fresh("v_", "off"), self.fresh("m_", "view")
+                binds.append((off, v[2]))
+                binds.append((view, "(c_view %s (COk %s))" % (env.bufs[v[1]], off)))
+                actual.append(view)
+                if not pconst:
+                    back = self.fresh("m_", "view")
+                    outs.append(back)
+                    splices.append((v[1], off, back))
+            elif v[0] == "bytes":
                 actual.append(env.bufs[v[1]])
                 if not pconst:
                     nm = self.fresh("m_", "")
@@ -1081,7 +1142,12 @@ class Translator:
             r = self.fresh("v_", "ret")
             outs.insert(0, r)
         pat = "_" if not outs else outs[0] if len(outs) == 1 else "'(%s)" % ", ".join(outs)
-        out = self.bind(pat, "src_%s %s" % (name, " ".join(actual)), k(e, r))
+        for (key, off, back) in splices:
+            e.bufs[key] = self.fresh("m_", "")
+        rest = k(e, r)
+        for (key, off, back) in reversed(splices):
+            rest = self.bind(e.bufs[key], "(c_unview %s (COk %s) %s)" % (env.bufs[key], off, back), rest)
+        out = self.bind(pat, "src_%s %s" % (name, " ".join(actual)), rest)
         for (nm, t) in reversed(binds):
             out = self.bind(nm, t, out)
         return out
@@ -1092,8 +1158,8 @@ class Translator:
             return
         if fn in self.active:
             raise Untranslatable("recursion through %s" % fn)
-        saved = (self.n, self.fuel, self.rty, self.buf_const)
-        self.n, self.fuel, self.buf_const = 0, False, {}
+        saved = (self.n, self.fuel, self.rty, self.buf_const, self.buf_arr)
+        self.n, self.fuel, self.buf_const, self.buf_arr = 0, False, {}, {}
         self.active.append(fn)
         try:
             d = self.ast(fn)
@@ -1105,7 +1171,7 @@ class Translator:
             self.done[fn] = {"error": str(e)}
         self.active.pop()
         self.order.append(fn)
-        self.n, self.fuel, self.rty, self.buf_const = saved
+        self.n, self.fuel, self.rty, self.buf_const, self.buf_arr = saved
 
     def scan_globals(self, fn, d):
         """non-const variables with static storage duration the function refers to"""
@@ -1140,6 +1206,7 @@ class Translator:
     def signature(self, d):
         """Coq parameters, result components and initial environment from the prototype"""
         ps, rt = self.params(d), self.ret_type(d)
+        moved = set(self.modified(d))                   # parameters the body itself advances (p++, p += n, p = p + 1)
         if rt[0] == "ptr":
             raise Untranslatable("pointer return type")
         env, coq_params, sig_params, outs = Env(), [], [], []
@@ -1155,6 +1222,9 @@ class Translator:
                 nm = "m_" + p["name"]
                 # the parameter itself is a pointer variable (it may be advanced): its offset starts at 0
                 env.vars[p["id"]] = ("bytes", p["id"], None)
+                if p["id"] in moved:
+                    env.vars[p["id"]] = ("ptrvar", p["id"], p["id"] + "#off")
+                    env.cells[p["id"] + "#off"] = (PTR, ("val", "0"))
                 env.bufs[p["id"]] = nm
                 self.buf_const[p["id"]] = t[1]
                 coq_params.append("(%s : list N)" % nm)
@@ -1305,9 +1375,19 @@ CSIMPLE_FUNCTIONS = ["varintChainedSimpleEncode64", "varintChainedSimpleLength",
                      "varintChainedSimpleEncode32", "varintChainedSimpleDecode32Fallback", "varintChainedSimpleDecode32"]
 
 
+CHAINED_FUNCTIONS = ["varintChainedPutVarint", "varintChainedGetVarint", "varintChainedGetVarint32",
+                     "varintChainedVarintLen"]
+CHAINED_WRAPPERS = """
+#include "varintChained.h"
+uint8_t q_varintChained_getVarint32(const uint8_t *A, uint32_t *B) { return varintChained_getVarint32(A, *B); }
+uint8_t q_varintChained_putVarint32(uint8_t *A, uint32_t B) { return varintChained_putVarint32(A, B); }
+"""
+
+
 def regenerate(repo, outdir):
     info = translate_file(repo, "varintTagged.c", TAGGED_FUNCTIONS, "tagged", outdir, TAGGED_WRAPPERS)
     info.update(translate_file(repo, "varintChainedSimple.c", CSIMPLE_FUNCTIONS, "csimple", outdir))
+    info.update(translate_file(repo, "varintChained.c", CHAINED_FUNCTIONS, "chained", outdir, CHAINED_WRAPPERS))
     return info
 
 
